@@ -40,6 +40,9 @@ TRUSTED_BASE = [
     'uses it, not from firmware source; it exists twice (Gallina, fakes/c12_target.py) and both are compared in every case',
 ]
 ASSUMPTIONS = [
+    'between two flashes on one Bootloader object the code keeps only the link (downlink queue) and Cloader.error_code / '
+    'targets; an exception raised by the link inside send_packet propagates uncaught (modelled as: the frames before it '
+    'went out); the target geometry cache is not changed between the flashes of a history',
     'deck flashing itself (_flash_deck_incrementally, the firmware restart around it) and _get_boot_delay need a running '
     'firmware with the memory subsystem; they are stubbed in the sessions: only the decision to enter the deck phase '
     '(warm boot, target list) and the artifacts handed to it are checked',
@@ -68,7 +71,7 @@ ASSUMPTIONS = [
     'the UI configuration is an input: progress_cb installed or not, terminate_flashing_cb absent or answering a given '
     'sequence; error_cb is never read by cflib/bootloader; the callbacks themselves do not raise',
 ]
-PROVED = ('Thirty theorems (C12/Property.v), all closed under the global context. Single image: exact placement, '
+PROVED = ('Thirty-three theorems (C12/Property.v), all closed under the global context. Single image: exact placement, '
           'nothing outside its pages, no out-of-range command, other target untouched, refusal before any write, negative '
           'override raises before any flash-write, frame sizes, per-page loads exactly once in order, bounded retry then abort. '
           'Geometry: info packet decoded exactly, only a received matching packet is reported, at most six requests. nRF51 '
@@ -83,7 +86,9 @@ PROVED = ('Thirty theorems (C12/Property.v), all closed under the global context
           'pattern, at most six requests per chunk. UI callbacks: for every configuration of progress_cb / '
           'terminate_flashing_cb the outcome (abort or completion), script position and frames equal those without callbacks, '
           'or the run is terminated on a prefix of them when the terminate callback says so; whole plans are identical with '
-          'progress_cb; the raise-only-without-progress_cb variant is refuted.')
+          'progress_cb; the raise-only-without-progress_cb variant is refuted. Histories on one object: a flash does not depend '
+          'on the downlink queue it finds, so its writes are a function of its own request and the script position however '
+          'the previous flash ended; a buffer counter surviving an abort is refuted.')
 NOT_PROVED = ('zip/manifest parsing (incl. the legacy manifest-v1 rule that adds the distro s110 binary), flash_full / '
               'start_bootloader / _get_boot_delay (need a firmware-side Crazyflie), deck flashing, reset/reconnect (played by '
               'the fake) are not modelled; final content when two selected images overlap on one target is not stated. Loss of buffer-load packets, a target whose real geometry differs from the reported one, and replies '
@@ -91,7 +96,7 @@ NOT_PROVED = ('zip/manifest parsing (incl. the legacy manifest-v1 rule that adds
               'the flush of the next) are outside the model; bytes of the last flash page beyond the image end take '
               'whatever the buffer held (inside the occupied range, allowed by the statement).')
 
-HEADER = ('From CF Require Import Common.Bytes C12.Model C12.Session C12.Plan C12.Callbacks.\nOpen Scope Z_scope.\n'
+HEADER = ('From CF Require Import Common.Bytes C12.Model C12.Session C12.Plan C12.Callbacks C12.History.\nOpen Scope Z_scope.\n'
           'Fixpoint zr (a : Z) (n : nat) : list Z := match n with O => [] | S k => a :: zr (a + 1) k end.\n'
           'Definition mem (n salt : Z) : list Z := map (fun a => ((a * 7 + salt) * 13 + a / 8) mod 251) (zr 0 (Z.to_nat n)).\n'
           'Definition dg1 (p b : Z) (l : list Z) : Z := fold_left (fun h v => (h * b + v + 1) mod p) l 7.\n'
@@ -160,6 +165,18 @@ def compare(terms, exp, tag, shard):
         full = coqrun.eval_terms(HEADER, [terms[i] for i in show], tag=tag + 'f', shard=1, timeout=900) if show else []
         out = list(zip(show, full)) + [(i, None) for i in bad if i not in show]
     return out
+
+
+_POOL = None
+
+
+def compare_async(terms, exp, tag, shard):
+    """compare() in a worker thread (the work is in coqc child processes): the batches of one run evaluate concurrently"""
+    global _POOL
+    if _POOL is None:
+        from concurrent.futures import ThreadPoolExecutor
+        _POOL = ThreadPoolExecutor(8)
+    return _POOL.submit(compare, list(terms), list(exp), tag, shard)
 
 
 def build_targets(case):
@@ -1186,6 +1203,17 @@ def _short(c):
     return d
 
 
+def corpus_history_entries():
+    import glob
+    import json
+    import os
+    out = []
+    for p in sorted(glob.glob(os.path.join(coqrun.VERIF, 'corpus', 'C12', 'history', '*.json'))):
+        d = json.load(open(p))
+        out.append((d['case'], d.get('faults')))
+    return out
+
+
 def corpus_plan_entries():
     import glob
     import json
@@ -1195,6 +1223,237 @@ def corpus_plan_entries():
         d = json.load(open(p))
         out.append((d['case'], d.get('class_when_found')))
     return out
+
+
+# ------------------------------------------------------------------------------------------------ histories: several flashes on ONE Bootloader object
+def run_history(case, faults=None):
+    """case['flashes'] run one after the other on the same Bootloader/Cloader/link.  faults: optional list (one per
+    flash) of Policy faults (then the flat script is not used).  Returns (per-flash records, link, targets)."""
+    from cflib.bootloader import Bootloader, FlashArtifact, Target as ZT
+    from cflib.bootloader.boottypes import Target
+    from cflib.crtp.crtpstack import CRTPPacket
+    tg = build_targets(case)
+    link = ft.Link(tg, case.get('script', []), case.get('queue', []), CRTPPacket)
+    bl = Bootloader()
+    bl._cload.link = link
+    for t in case['targets']:
+        ti = Target(t['id'])
+        ti.addr = t['id']
+        ti.page_size, ti.buffer_pages, ti.flash_pages, ti.start_page = t['ps'], t['bp'], t['fp'], t['sp']
+        bl._cload.targets[t['id']] = ti
+    recs = []
+    for k, fl in enumerate(case['flashes']):
+        name = {STM: 'stm32', NRF: 'nrf51'}[fl['addr']]
+        art = FlashArtifact(bytes(fl['image']), ZT('cf2', name, 'fw', [], []), None)
+        bl.progress_cb = None
+        bl.terminate_flashing_cb = None
+        log = install_callbacks(bl, fl.get('cb'))
+        link.nsend = 0
+        link.raise_at = fl.get('link_exc_at')
+        pol = None
+        if faults is not None:
+            pol = Policy(fl['addr'], faults[k])
+        link.policy = pol
+        before = [(bytes(t.buf), bytes(t.flash), t.oob) for t in tg]
+        n0 = len(link.sent)
+        code, detail = 0, ''
+        with contextlib.redirect_stdout(io.StringIO()):
+            try:
+                if fl.get('override') is None:
+                    bl._internal_flash(art)
+                else:
+                    bl._internal_flash(art, page_override=fl['override'])
+            except ft.HarnessAbort as e:
+                code, detail = 98, repr(e)
+            except ft.LinkError:
+                code = 7
+            except struct.error as e:
+                code, detail = 3, repr(e)
+            except IndexError as e:
+                code, detail = 4, repr(e)
+            except ZeroDivisionError as e:
+                code, detail = 5, repr(e)
+            except Exception as e:
+                if type(e) is Exception and e.args == ('Not enough space to flash the image file',):
+                    code = 1
+                elif type(e) is Exception and e.args == ():
+                    code = 2
+                elif type(e) is Exception and e.args == ('Flashing terminated',):
+                    code = 6
+                else:
+                    code, detail = 99, repr(e)
+        after = [(bytes(t.buf), bytes(t.flash), t.oob) for t in tg]
+        recs.append({'code': code, 'detail': detail, 'frames': link.sent[n0:], 'before': before, 'after': after,
+                     'log': log, 'pol': pol})
+    return recs, link, tg
+
+
+def history_obs(case):
+    recs, link, tg = run_history(case)
+    out = []
+    for r in recs:
+        out += [r['code'], len(r['frames'])]
+        for (h, d, deliv) in r['frames']:
+            out += [1 if deliv else 0, 1 + len(d), h] + list(d)
+    for t in tg:
+        out += list(t.buf) + list(t.flash) + [1 if t.oob else 0]
+    return out, recs
+
+
+def history_term(case):
+    geo = {t['id']: t for t in case['targets']}
+    reqs = []
+    for fl in case['flashes']:
+        g = geo[fl['addr']]
+        cb = fl.get('cb') or {}
+        term = 'None' if cb.get('term') is None else '(Some [%s])' % '; '.join(coqrun.coq_bool(b) for b in cb['term'])
+        ov = 'None' if fl.get('override') is None else '(Some %s)' % coqrun.z(fl['override'])
+        exc = 'None' if fl.get('link_exc_at') is None else '(Some (Z.to_nat %d))' % fl['link_exc_at']
+        img = '(fimg %d %d %d %d)' % tuple(fl['formula']) if fl.get('formula') else coqrun.zlist(fl['image'])
+        reqs.append('mkReq (mkCb %s %s) %d %d %d %d %d %s %s %s' % (
+            coqrun.coq_bool(bool(cb.get('progress'))), term, fl['addr'], g['ps'], g['bp'], g['fp'], g['sp'], ov, img, exc))
+    tgs = []
+    for k, t in enumerate(case['targets']):
+        tgs.append('(mkT %d %d %d %d (mem %d %d) (mem %d %d) false)' % (
+            t['id'], t['ps'], t['bp'], t['fp'], t['ps'] * t['bp'], 3 + k, t['ps'] * t['fp'], 101 + k))
+    return ('let res := run_history [%s] [%s] [%s] in '
+            'let tr := concat (map snd res) in '
+            'concat (map (fun x : Z * list (frame * bool) => fst x :: Z.of_nat (length (snd x)) :: trace_obs (snd x)) res) ++ '
+            'concat (map (fun T => let T1 := deliver T tr in t_buf T1 ++ t_flash T1 ++ [if t_oob T1 then 1 else 0]) [%s])'
+            % ('; '.join(reqs), '; '.join(_pkt(p) for p in case.get('queue', [])),
+               '; '.join(_att(a) for a in case.get('script', [])), '; '.join(tgs)))
+
+
+def gen_history_case(rng, for_oracle=False):
+    sps, sbp = rng.choice([4, 8, 16, 26]), rng.choice([2, 3, 4, 10])
+    nps = rng.choice([4, 8, 16, 25])
+    ssp, nsp = rng.choice([2, 3, 5]), rng.choice([1, 2, 4])
+    targets = [{'id': STM, 'ps': sps, 'bp': sbp, 'fp': ssp + 3 * sbp + 4, 'sp': ssp},
+               {'id': NRF, 'ps': nps, 'bp': 1, 'fp': nsp + 8, 'sp': nsp}]
+    geo = {t['id']: t for t in targets}
+    flashes = []
+    for k in range(rng.choice([2, 2, 3])):
+        addr = rng.choice([STM, STM, NRF])
+        g = geo[addr]
+        avail = (g['fp'] - g['sp']) * g['ps']
+        ln = rng.choice([1, g['ps'], g['ps'] + 1, g['bp'] * g['ps'] + 1, 2 * g['bp'] * g['ps'] + g['ps'], avail,
+                         rng.randrange(1, avail + 1)])
+        ln = max(1, min(ln, avail + (g['ps'] if rng.random() < 0.05 else 0)))
+        f = [ln, rng.randrange(1, 1000), rng.randrange(1000), rng.randrange(1000)]
+        fl = {'addr': addr, 'formula': f, 'image': fimg(*f), 'override': None}
+        if rng.random() < 0.1:
+            fl['override'] = g['sp'] + 1
+        npg = (ln + g['ps'] - 1) // g['ps']
+        r = rng.random()
+        if r < 0.3:
+            fl['cb'] = {'progress': rng.random() < 0.5, 'term': [False] * rng.randrange(0, npg + 1) + [True]}
+        elif r < 0.5:
+            fl['cb'] = {'progress': True, 'term': None}
+        if rng.random() < 0.3 and not for_oracle:
+            fl['link_exc_at'] = rng.randrange(1, 2 * npg + 4)
+        flashes.append(fl)
+    c = {'targets': targets, 'flashes': flashes, 'queue': [], 'script': []}
+    if not for_oracle and rng.random() < 0.7:
+        ncalls = sum((len(fl['image']) // (geo[fl['addr']]['ps'] * geo[fl['addr']]['bp'])) + 1 for fl in flashes)
+        c['script'] = rand_script(rng, flashes[0]['addr'], ncalls)
+    return c
+
+
+HFAULTS = [None, None, {'kind': 'negative', 'call': 0}, {'kind': 'negative', 'call': 1}, {'kind': 'lost_forever', 'call': 0},
+           {'kind': 'lost_forever', 'call': 1, 'up': False}, {'kind': 'lost_k', 'call': 0, 'k': 2}, {'kind': 'late_k', 'call': 0, 'k': 2}]
+
+
+def check_history(case, faults):
+    """The clauses of the property for EVERY flash of a history on one Bootloader object, judged on the device state
+    right before and right after that flash."""
+    recs, link, tg = run_history(case, faults)
+    geo = {t['id']: t for t in case['targets']}
+
+    def fail(cls, k, expected, observed, detail_):
+        return {'class': cls, 'case': {'kind': 'history', 'case': case, 'faults': faults}, 'expected': expected,
+                'observed': dict(observed, flash_no=k, previous_outcomes=[CODES.get(r['code'], r['code']) for r in recs[:k]]),
+                'detail': detail_}
+    for k, (fl, r) in enumerate(zip(case['flashes'], recs)):
+        g = geo[fl['addr']]
+        ps, bp, fp = g['ps'], g['bp'], g['fp']
+        start = g['sp'] if fl.get('override') is None else fl['override']
+        img = bytes(fl['image'])
+        ln = len(img)
+        npg = (ln + ps - 1) // ps
+        idx = [i for i, t in enumerate(case['targets']) if t['id'] == fl['addr']][0]
+        if r['code'] in (98, 99):
+            return fail('unexpected_exception', k, 'success or a flashing error', {'detail': r['detail']}, '')
+        for (h, d, deliv) in r['frames']:
+            if 1 + len(d) > 32:
+                return fail('frame_too_long', k, '<= 32 bytes', {'len': 1 + len(d)}, '')
+        if any(a[2] for a in r['after']):
+            return fail('command_out_of_range', k, 'all commands inside buffer and flash', {},
+                        'a load-buffer or write-flash command addressed bytes beyond the buffer or the flash')
+        for i in range(len(tg)):
+            if i != idx and (r['before'][i][1] != r['after'][i][1] or r['before'][i][0] != r['after'][i][0]):
+                return fail('other_target_touched', k, 'other target unchanged', {}, '')
+        fb, fa = r['before'][idx][1], r['after'][idx][1]
+        lo, hi = start * ps, (start + npg) * ps
+        fits = ln <= (fp - start) * ps
+        if not fits:
+            if r['frames'] or fb != fa or r['code'] == 0:
+                return fail('too_big_not_refused', k, 'refused, no frame sent', {'frames': len(r['frames'])}, '')
+            continue
+        if fb[:lo] != fa[:lo] or fb[hi:] != fa[hi:]:
+            a = next(i for i in range(len(fa)) if (i < lo or i >= hi) and fa[i] != fb[i])
+            return fail('page_outside_image_touched', k, 'unchanged outside pages [%d,%d)' % (start, start + npg),
+                        {'first_changed_byte': a, 'page': a // ps, 'below_start_page': a < lo},
+                        'a flash page outside the range the image occupies was written')
+        # loads: every byte of every page once, at its offset; writes name the right page
+        page, cov, i = 0, {}, 0
+        sent = r['frames']
+        while i < len(sent):
+            h, d, deliv = sent[i]
+            if d[1] == 0x14:
+                bpage, off = struct.unpack('<HH', d[2:6])
+                for j, b in enumerate(d[6:]):
+                    cov[(bpage, off + j)] = cov.get((bpage, off + j), 0) + 1
+                    a = (page + bpage) * ps + off + j
+                    if off + j >= ps or a >= ln or img[a] != b:
+                        return fail('load_wrong_offset', k, 'image byte %d at buffer page %d offset %d' % (a, bpage, off + j),
+                                    {'frame': i}, 'a buffer-load frame carries a byte to the wrong place')
+                i += 1
+            elif d[1] == 0x18:
+                bq, fq, n = struct.unpack('<HHH', d[2:8])
+                want = {(p, o) for p in range(n) for o in range(ps) if (page + p) * ps + o < ln}
+                if bq != 0 or fq != start + page or set(cov) != want or any(v != 1 for v in cov.values()):
+                    return fail('page_not_covered_once', k, 'pages %d..%d loaded once, write at flash page %d' % (page, page + n - 1, start + page),
+                                {'write': [bq, fq, n], 'loaded': len(cov), 'expected': len(want)},
+                                'buffer loads do not cover the pages of a flash-write exactly once')
+                j = i
+                while j < len(sent) and sent[j][1] == d:
+                    j += 1
+                if j - i > 16:
+                    return fail('write_retry_unbounded', k, '<= 16 attempts', {'attempts': j - i}, '')
+                i, page, cov = j, page + n, {}
+            else:
+                i += 1
+        if r['code'] == 0:
+            pol = r['pol']
+            if pol is not None:
+                for c_, rec in enumerate(pol.calls):
+                    if rec['pos_ack'] == 0:
+                        return fail('continued_after_failed_write', k, 'flashing aborts with an error',
+                                    {'write_call': c_, 'attempts': rec['attempts']}, '')
+                if bytes(fa[lo:lo + ln]) != img:
+                    a = next(i for i in range(ln) if fa[lo + i] != img[i])
+                    return fail('image_not_exact', k, 'flash[start*ps : start*ps+len] == image', {'first_wrong_byte': a}, '')
+        elif r['code'] == 6:
+            term = (fl.get('cb') or {}).get('term')
+            if not term or not any(term):
+                return fail('spurious_terminate', k, 'no termination', {}, '')
+        elif r['code'] != 7:
+            f = faults[k] if faults else None
+            if r['pol'] is not None and (f is None or f['kind'] in ('late_k',) or (f['kind'] == 'lost_k' and f['k'] <= 4)):
+                return fail('spurious_abort', k, 'success', {'outcome': CODES.get(r['code'], r['code'])},
+                            'flashing failed although every write was acknowledged')
+    return None
+
 
 
 def tie_extra(ctx):
@@ -1208,9 +1467,7 @@ def tie_extra(ctx):
     for e in exp:
         k = {0: 'False', 1: 'struct.error', 2: 'True', 3: 'MalformedMapping'}.get(e[0], str(e[0]))
         dist['update_info_outcome'][k] = dist['update_info_outcome'].get(k, 0) + 1
-    for bi, mv in compare(terms, exp, 'c12i', max(10, len(terms) // 8 + 1)):
-        dis.append({'what': '_update_info: model and implementation differ', 'case': icases[bi],
-                    'model': mv if mv is None else mv[:40], 'impl': exp[bi][:40]})
+    fut_1 = compare_async(terms, exp, 'c12i', max(10, len(terms) // 5 + 1))
     scases = [gen_session_case(rng) for _ in range(ctx.scale(50, 1500))]
     terms, exp2, keep = [], [], []
     for c in scases:
@@ -1224,15 +1481,7 @@ def tie_extra(ctx):
         k = CODES[code]
         dist['session_outcome'][k] = dist['session_outcome'].get(k, 0) + 1
         dist['session_with_sd'] += c.get('sd') is not None
-    for bi, mv in compare(terms, exp2, 'c12s', max(10, len(terms) // 8 + 1)):
-        c = keep[bi]
-        d = {'what': 'Bootloader.flash session: model and implementation differ',
-             'case': {k: (v if not isinstance(v, list) or len(v) < 40 else len(v)) for k, v in c.items()},
-             'impl_outcome': exp2[bi][0]}
-        if mv is not None:
-            k = next((i for i, (a, b) in enumerate(zip(mv, exp2[bi])) if a != b), min(len(mv), len(exp2[bi])))
-            d.update({'first_difference_at': k, 'model': mv[max(0, k - 4):k + 12], 'impl': exp2[bi][max(0, k - 4):k + 12]})
-        dis.append(d)
+    fut_2 = compare_async(terms, exp2, 'c12s', max(10, len(terms) // 5 + 1))
     # whole flash() with generated manifests and target lists
     pcases = [c for (c, f) in corpus_plan_entries()] + [gen_plan_case(rng) for _ in range(ctx.scale(130, 2000))]
     terms, exp3, keep3 = [], [], []
@@ -1251,14 +1500,18 @@ def tie_extra(ctx):
         dist['plan_outcome'][k] = dist['plan_outcome'].get(k, 0) + 1
         dist['plan_with_selection'] += bool(c['select'])
         dist['plan_rebooted'] += bool(link.resets)
-    for bi, mv in compare(terms, exp3, 'c12p', max(10, len(terms) // 8 + 1)):
-        d = {'what': 'Bootloader.flash (artifact plan): model and implementation differ', 'case': _short(keep3[bi]),
-             'impl_outcome': exp3[bi][0]}
-        if mv is not None:
-            k = next((i for i, (a, b) in enumerate(zip(mv, exp3[bi])) if a != b), min(len(mv), len(exp3[bi])))
-            d.update({'first_difference_at': k, 'model': mv[max(0, k - 4):k + 12], 'impl': exp3[bi][max(0, k - 4):k + 12],
-                      'model_outcome': mv[0] if mv else None})
-        dis.append(d)
+    fut_3 = compare_async(terms, exp3, 'c12p', max(10, len(terms) // 5 + 1))
+    # several flashes on one Bootloader object
+    hcases = [c for (c, f) in corpus_history_entries()] + [gen_history_case(rng) for _ in range(ctx.scale(80, 2000))]
+    terms = [history_term(c) for c in hcases]
+    exp5 = []
+    dist['history_outcomes'] = {}
+    for c in hcases:
+        obs, recs = history_obs(c)
+        exp5.append(obs)
+        key = '>'.join(CODES.get(r['code'], 'LinkError' if r['code'] == 7 else str(r['code'])) for r in recs)
+        dist['history_outcomes'][key] = dist['history_outcomes'].get(key, 0) + 1
+    fut_4 = compare_async(terms, exp5, 'c12h', max(10, len(terms) // 5 + 1))
     # read_flash
     rcases = [gen_read_case(rng) for _ in range(ctx.scale(150, 2500))]
     terms = [read_term(c) for c in rcases]
@@ -1267,12 +1520,43 @@ def tie_extra(ctx):
     for e in exp4:
         k = {0: 'None', 1: 'struct.error', 2: 'page'}.get(e[0], str(e[0]))
         dist['read_flash_outcome'][k] = dist['read_flash_outcome'].get(k, 0) + 1
-    for bi, mv in compare(terms, exp4, 'c12r', max(10, len(terms) // 8 + 1)):
+    fut_5 = compare_async(terms, exp4, 'c12r', max(10, len(terms) // 5 + 1))
+    # collect the evaluations (all batches ran concurrently)
+    for bi, mv in fut_1.result():
+        dis.append({'what': '_update_info: model and implementation differ', 'case': icases[bi],
+                    'model': mv if mv is None else mv[:40], 'impl': exp[bi][:40]})
+    for bi, mv in fut_2.result():
+        c = keep[bi]
+        d = {'what': 'Bootloader.flash session: model and implementation differ',
+             'case': {k: (v if not isinstance(v, list) or len(v) < 40 else len(v)) for k, v in c.items()},
+             'impl_outcome': exp2[bi][0]}
+        if mv is not None:
+            k = next((i for i, (a, b) in enumerate(zip(mv, exp2[bi])) if a != b), min(len(mv), len(exp2[bi])))
+            d.update({'first_difference_at': k, 'model': mv[max(0, k - 4):k + 12], 'impl': exp2[bi][max(0, k - 4):k + 12]})
+        dis.append(d)
+    for bi, mv in fut_3.result():
+        d = {'what': 'Bootloader.flash (artifact plan): model and implementation differ', 'case': _short(keep3[bi]),
+             'impl_outcome': exp3[bi][0]}
+        if mv is not None:
+            k = next((i for i, (a, b) in enumerate(zip(mv, exp3[bi])) if a != b), min(len(mv), len(exp3[bi])))
+            d.update({'first_difference_at': k, 'model': mv[max(0, k - 4):k + 12], 'impl': exp3[bi][max(0, k - 4):k + 12],
+                      'model_outcome': mv[0] if mv else None})
+        dis.append(d)
+    for bi, mv in fut_4.result():
+        c = hcases[bi]
+        d = {'what': 'history of flashes on one Bootloader: model and implementation differ',
+             'case': {'targets': c['targets'], 'script_len': len(c['script']),
+                      'flashes': [{k: (v if k != 'image' else len(v)) for k, v in fl.items()} for fl in c['flashes']]}}
+        if mv is not None:
+            k = next((i for i, (a, b) in enumerate(zip(mv, exp5[bi])) if a != b), min(len(mv), len(exp5[bi])))
+            d.update({'first_difference_at': k, 'model': mv[max(0, k - 4):k + 12], 'impl': exp5[bi][max(0, k - 4):k + 12]})
+        dis.append(d)
+    for bi, mv in fut_5.result():
         dis.append({'what': 'read_flash: model and implementation differ', 'case': rcases[bi],
                     'model': mv if mv is None else mv[:30], 'impl': exp4[bi][:30]})
     samples = [{'update_info': {'tid': icases[0]['tid'], 'events': icases[0]['events'][:2], 'impl': exp[0][:8]}},
                {'flash_plan': _short(keep3[-1]) if keep3 else None}]
-    return len(icases) + len(keep) + len(keep3) + len(rcases), dis, dist, samples
+    return len(icases) + len(keep) + len(keep3) + len(rcases) + len(hcases), dis, dist, samples
 
 
 
@@ -1312,12 +1596,14 @@ def tie(ctx):
             nontriv += nontrivial(c)
     big = [i for i, e in enumerate(exp) if len(e) > 20000]
     small = [i for i in range(len(exp)) if i not in set(big)]
+    fut_big = compare_async([terms[i] for i in big], [exp[i] for i in big], 'c12b', 1) if big else None   # one process per long case
+    fut_small = compare_async([terms[i] for i in small], [exp[i] for i in small], 'c12', max(10, len(small) // 10 + 1)) if small else None
+    nx, dx, distx, sampx = tie_extra(ctx)      # its batches evaluate concurrently with the two above
     res = []
-    if big:     # one process per long case
-        res += [(big[k], mv) for k, mv in compare([terms[i] for i in big], [exp[i] for i in big], 'c12b', 1)]
-    if small:
-        res += [(small[k], mv) for k, mv in compare([terms[i] for i in small], [exp[i] for i in small], 'c12',
-                                                    max(10, len(small) // 16 + 1))]
+    if fut_big is not None:
+        res += [(big[k], mv) for k, mv in fut_big.result()]
+    if fut_small is not None:
+        res += [(small[k], mv) for k, mv in fut_small.result()]
     for bi, mv in res:
         c, code = meta[bi]
         d = {'what': 'flash run: model and implementation differ', 'case': c, 'impl_outcome': CODES.get(code, code)}
@@ -1331,7 +1617,6 @@ def tie(ctx):
     nb, bad = int_div_boundary_check()
     for (v, ps) in bad[:3]:
         dis.append({'what': 'int(v/ps) differs from v//ps', 'v': v, 'ps': ps})
-    nx, dx, distx, sampx = tie_extra(ctx)
     dis += dx
     dist.update(distx)
     nontriv += nx
@@ -1751,6 +2036,15 @@ def oracle_extra(ctx, deep, rng):
         r = check_plan_session(c)
         if r and not any(x['class'] == r['class'] for x in fails):
             fails.append(shrink_plan(r))
+    hist = [(c, f) for (c, f) in corpus_history_entries() if f is not None]
+    for _ in range(ctx.scale(350, 6000) * (2 if deep else 1)):
+        c = gen_history_case(rng, for_oracle=True)
+        hist.append((c, [rng.choice(HFAULTS) for _ in c['flashes']]))
+    for (c, f) in hist:
+        n += 1
+        r = check_history(c, f)
+        if r and not any(x['class'] == r['class'] for x in fails):
+            fails.append(shrink_history(r))
     for _ in range(ctx.scale(300, 3000)):
         c = gen_read_case(rng, honest_only=True)
         n += 1
@@ -1758,6 +2052,43 @@ def oracle_extra(ctx, deep, rng):
         if r and not any(x['class'] == r['class'] for x in fails):
             fails.append(r)
     return n, fails
+
+
+def shrink_history(failure):
+    """Drop trailing flashes, shorten images, drop callbacks while the same class fails."""
+    import copy
+    cls = failure['class']
+    best = failure
+    for _ in range(30):
+        c, fts = best['case']['case'], best['case']['faults']
+        cands = []
+        if len(c['flashes']) > 2:
+            for k in (len(c['flashes']) - 1, 0):
+                c2 = copy.deepcopy(c)
+                del c2['flashes'][k]
+                cands.append((c2, fts[:k] + fts[k + 1:]))
+        for k, fl in enumerate(c['flashes']):
+            if len(fl['image']) > 1:
+                c2 = copy.deepcopy(c)
+                c2['flashes'][k]['image'] = fl['image'][:max(1, len(fl['image']) // 2)]
+                c2['flashes'][k].pop('formula', None)
+                cands.append((c2, fts))
+            if fl.get('cb'):
+                c2 = copy.deepcopy(c)
+                c2['flashes'][k].pop('cb')
+                cands.append((c2, fts))
+        progressed = False
+        for (c2, f2) in cands:
+            try:
+                r = check_history(c2, f2)
+            except Exception:
+                r = None
+            if r is not None and r['class'] == cls:
+                best, progressed = r, True
+                break
+        if not progressed:
+            break
+    return best
 
 
 def shrink_plan(failure):
@@ -1912,4 +2243,6 @@ def replay(payload, ctx):
         return check_plan_session(c['case'])
     if c.get('kind') == 'read':
         return check_read_case(c['case'])
+    if c.get('kind') == 'history':
+        return check_history(c['case'], c['faults'])
     return check_case(c['case'], c.get('fault'))
